@@ -238,9 +238,13 @@ pub enum Inject {
     DupSchedule { comp: usize, party: usize },
     Run { comp: usize, party: usize },
     Consts { comp: usize, party: usize, from: usize },
+    /// consts carrying one (bogus) constant
+    ConstsNonEmpty { comp: usize, party: usize, from: usize },
     Validate { comp: usize, party: usize },
     MpcMsg { comp: usize, party: usize, from: usize },
     Cancel { comp: usize, party: usize },
+    /// a schedule with a different policy (index into Scenario::alt_policies) for the same computation
+    AltSchedule { comp: usize, party: usize, alt: usize },
 }
 
 #[derive(Clone, Debug)]
@@ -274,6 +278,7 @@ pub struct Scenario {
     pub max_steps: usize,
     /// the output destination is unreachable: every output() call returns an error
     pub fail_outputs: bool,
+    pub alt_policies: Vec<Policy>,
 }
 
 #[derive(Clone, Debug)]
@@ -595,8 +600,20 @@ fn do_inject(shared: &Arc<Shared>, slot: &CallSlot, inj: &Inject, sc: &Scenario,
         Inject::Consts { comp, party, from } => {
             if let Some(h) = get(comp, party) {
                 let id = sc.policies[comp][party].computation_id;
-                spawn_call(shared, slot, "consts", comp, party, step, compile_alive, async move {
+                let name = if from < sc.policies[comp].len() { "consts".to_string() } else { format!("consts(from={})", if from == usize::MAX { "usize::MAX".to_string() } else { from.to_string() }) };
+                spawn_call(shared, slot, &name, comp, party, step, compile_alive, async move {
                     h.consts(ConstsRequest { from, computation_id: id, consts: Default::default() }).await
+                });
+            }
+        }
+        Inject::ConstsNonEmpty { comp, party, from } => {
+            if let Some(h) = get(comp, party) {
+                let id = sc.policies[comp][party].computation_id;
+                let name = format!("consts-nonempty(from={})", if from == usize::MAX { "usize::MAX".to_string() } else { from.to_string() });
+                spawn_call(shared, slot, &name, comp, party, step, compile_alive, async move {
+                    let mut consts: polytune_server_core::Consts = Default::default();
+                    consts.insert("BOGUS".to_string(), Literal::NumUnsigned(1, polytune::garble_lang::token::UnsignedNumType::U8));
+                    h.consts(ConstsRequest { from, computation_id: id, consts }).await
                 });
             }
         }
@@ -616,6 +633,11 @@ fn do_inject(shared: &Arc<Shared>, slot: &CallSlot, inj: &Inject, sc: &Scenario,
         Inject::Cancel { comp, party } => {
             if let Some(h) = get(comp, party) {
                 spawn_call(shared, slot, "cancel", comp, party, step, compile_alive, h.cancel());
+            }
+        }
+        Inject::AltSchedule { comp, party, alt } => {
+            if let (Some(h), Some(pol)) = (get(comp, party), sc.alt_policies.get(alt).cloned()) {
+                spawn_call(shared, slot, "alt-schedule", comp, party, step, compile_alive, async move { h.schedule(pol).await });
             }
         }
     }
